@@ -371,7 +371,7 @@ def gxx_values(ctx, exprs, tag):
 def run(ctx):
     ctx.level = "model_checking"
     thorough = ctx.tier == "thorough"
-    workers = int(os.environ.get("VERIF_WORKERS", "8" if thorough else "6"))
+    workers = int(os.environ.get("VERIF_WORKERS", "12" if thorough else "8"))
     exe_lex, lib = ctx.build_harness("lexer_replay", ["lexer_replay.cpp"])
     exe, lib = ctx.build_harness("exprprint_replay", ["exprprint_replay.cpp"])
     env = ctx.occa_env(lib)
